@@ -100,6 +100,46 @@ def run(chk):
                         oracle_bad.append(dict(info, op="solver agreement: " + op, expected=np.asarray(a).tolist(),
                                                observed=np.asarray(b).tolist()))
                 distinct.add((kname, nname, mname, n))
+    # structured-coordinate wrappers (time, band): coordinate-dependent observation model, all three solvers against a dense oracle
+    from tinygp.kernels import quasisep as qsm_
+    import equinox as eqx
+
+    class Multiband(qsm_.Wrapper):
+        amplitudes: jax.Array
+
+        def coord_to_sortable(self, X):
+            return X[0]
+
+        def observation_model(self, X):
+            return self.amplitudes[X[1]] * self.kernel.observation_model(X[0])
+    for base_name, base, kfun in (("Matern32", qsm_.Matern32(jnp.asarray(1.4), jnp.asarray(0.8)),
+                                   lambda tau: 0.8 ** 2 * (1 + np.sqrt(3) * tau / 1.4) * np.exp(-np.sqrt(3) * tau / 1.4)),
+                                  ("Exp", qsm_.Exp(jnp.asarray(0.9), jnp.asarray(1.2)), lambda tau: 1.2 ** 2 * np.exp(-tau / 0.9))):
+        nb = 7
+        tb = np.sort(rng.uniform(0, 5, size=nb))
+        tb[3] = tb[2]                                    # simultaneous observations in two bands
+        band = np.array([0, 1, 0, 1, 2, 0, 1])
+        amps = np.array([1.0, 0.6, 1.7])
+        Xb = (jnp.asarray(tb), jnp.asarray(band))
+        yb = rng.normal(size=nb)
+        dgb = rng.uniform(0.2, 0.5, size=nb)
+        kmb = Multiband(kernel=base, amplitudes=jnp.asarray(amps))
+        Kd = amps[band][:, None] * amps[band][None, :] * kfun(np.abs(tb[:, None] - tb[None, :])) + np.diag(dgb)
+        want_lp = -0.5 * yb @ np.linalg.solve(Kd, yb) - 0.5 * np.linalg.slogdet(Kd)[1] - 0.5 * nb * np.log(2 * np.pi)
+        infob = dict(kernel=f"Multiband({base_name})", n=nb, t=tb.tolist(), band=band.tolist(), y=yb.tolist())
+        for sname_, scls_ in (("direct", DirectSolver), ("quasisep", QuasisepSolver), ("kalman", KalmanSolver)):
+            hist["multiband/" + sname_] = hist.get("multiband/" + sname_, 0) + 1
+            try:
+                gpb = GaussianProcess(kmb, Xb, diag=jnp.asarray(dgb), solver=scls_)
+                lpb = float(gpb.log_probability(jnp.asarray(yb)))
+                nrm = float(gpb.solver.normalization())
+            except Exception as e:  # noqa: BLE001
+                oracle_bad.append(dict(infob, op=f"log_probability [{sname_}]", observed=f"raised {type(e).__name__}: {str(e)[:80]}", expected=float(want_lp)))
+                continue
+            for op_, got_, wnt_ in (("log_probability", lpb, want_lp), ("normalization", nrm, 0.5 * np.linalg.slogdet(Kd)[1] + 0.5 * nb * np.log(2 * np.pi))):
+                ok, dv = close([got_], [wnt_], 1e-8)
+                if not ok:
+                    oracle_bad.append(dict(infob, op=f"{op_} [{sname_}] on a structured-coordinate wrapper", expected=float(wnt_), observed=got_))
     model = coq_eval("c03", IMPORTS, exprs, defs=DEFS, shard=10)
     kal = {}
     for (info, lp, diag, is_k), mv in zip(expect, model):
@@ -123,7 +163,7 @@ def run(chk):
     chk.cov["distinct_nontrivial"] = len(distinct)
     chk.cov["rule"] = ("6 quasiseparable kernel expressions x {scalar, per-point, banded} noise x 3 mean kinds x sizes from 1 with coincident points; "
                        "dense vs quasiseparable: log probability, normalization, covariance, variance, samples for a key and three shapes, "
-                       "triangular product / solve; Kalman vs both: log probability, normalization, whitened residual; automatic solver selection; "
+                       "triangular product / solve; Kalman vs both: log probability, normalization, whitened residual; automatic solver selection; a (time, band) wrapper with a coordinate-dependent observation model under all three solvers vs a dense oracle; "
                        "the conditional process (log probability, mean, variance, covariance) in 8 conditioning modes incl. banded / diagonal predictive noise and another prediction kernel at the training inputs; distinct = different (kernel, noise, mean, n).")
     chk.cov["input_histogram"] = hist
     chk.cov["max_model_impl_deviation"] = maxdev
